@@ -1,7 +1,7 @@
 #!/bin/bash
 # usage: eval_mutants_batch.sh <log> <out-dir>:<prop>[,<prop>] ...   (uses a private clone of /repo)
 log="$1"; shift
-R=/var/tmp/mutrepo
+R=${MUTREPO:-/var/tmp/mutrepo}
 # private clone of /repo (never /repo itself); created on first use, brought to /repo's HEAD otherwise
 if [ ! -d "$R/.git" ]; then git clone -q /repo "$R"; else (cd "$R" && git checkout -q -- . && git pull -q /repo main); fi
 for item in "$@"; do
